@@ -114,13 +114,22 @@ def is_term(x) -> bool:
 
 # -------------------------------------------------------------------- shapes
 class Env:
-    """Which links have a single segment (N == 1)."""
+    """Number of segments per link: 1 / a concrete int / None = abstract N >= 2.
+    (legacy: True means 1, False means abstract)"""
 
     def __init__(self, n1: Optional[dict] = None):
         self.n1 = dict(n1 or {})
 
+    def nseg(self, link):
+        v = self.n1.get(link)
+        if v is True:
+            return 1
+        if v is False or v is None:
+            return None
+        return int(v)
+
     def is_n1(self, link) -> bool:
-        return bool(self.n1.get(link, False))
+        return self.nseg(link) == 1
 
 
 SC = ("sc",)
@@ -130,10 +139,15 @@ def seglen(shape, env: Env):
     """concrete length if known else None"""
     if shape == SC:
         return 1
+    if shape[0] == "tuple":
+        return shape[1]
     if shape[0] == "seg":
         _, link, a, b = shape
-        if env.is_n1(link):
-            return a + b
+        if b == 0:
+            return a
+        n = env.nseg(link)
+        if n is not None:
+            return a + b * n
         return None
     return None
 
@@ -141,15 +155,15 @@ def seglen(shape, env: Env):
 def _norm_shape(shape, env: Env):
     if shape[0] == "seg":
         _, link, a, b = shape
-        if env.is_n1(link):
-            n = a + b
-            if n == 1:
+        n = env.nseg(link)
+        if n is not None and b != 0:
+            a, b = a + b * n, 0
+        if b == 0:
+            if a == 1:
                 return SC
-            if n < 1:
-                raise ShapeError(f"empty vector (length {n})")
-            return ("seg", link, n, 0)
-        if b == 0 and a == 1:
-            return SC
+            if a < 1:
+                raise ShapeError(f"empty vector (length {a})")
+            return ("tuple", a)
     return shape
 
 
@@ -181,6 +195,8 @@ def shape(t, env: Env):
             s = shape(it, env)
             if s == SC:
                 a += 1
+            elif s[0] == "tuple":
+                a += s[1]
             elif s[0] == "seg":
                 if link is not None and s[1] != link:
                     raise AnalysisError("vcat of segments of different links")
@@ -213,6 +229,11 @@ def shape(t, env: Env):
             raise ShapeError(f"slice [{t[2]}:{t[3]}] of a length-1 value is empty")
         if s[0] == "seg":
             return _norm_shape(("seg", s[1], s[2] - lo + hi, s[3]), env)
+        if s[0] == "tuple":
+            n = s[1] - lo + hi
+            if n < 1:
+                raise ShapeError(f"slice [{t[2]}:{t[3]}] of a length-{s[1]} vector is empty")
+            return SC if n == 1 else ("tuple", n)
         raise AnalysisError(f"slice of {s[0]}")
     if k == "upd":
         return shape(t[1], env)
@@ -252,10 +273,14 @@ def positions(sh, env: Env):
         _, link, a, b = sh
         if b == 0:
             return [("first", k) for k in range(a)]
+        if env.nseg(link) is not None:
+            return [("first", k) for k in range(a + b * env.nseg(link))]
         if (a, b) == (0, 1):
             return [("first", 0), ("i", 0), ("last", 0)]
         # shifted vectors: enumerate via first/last only
         return [("first", 0), ("i", 0), ("last", 0)]
+    if sh[0] == "tuple":
+        return [("first", k) for k in range(sh[1])]
     if sh[0] == "fam":
         return [("mem", sh[1])]
     if sh[0] == "set":
@@ -273,7 +298,8 @@ def at(t, pos, env: Env):
         return t
     if k == "v":
         name, link = t[1], t[2]
-        if env.is_n1(link):
+        n = env.nseg(link)
+        if n == 1:
             if pos is None or pos in (("first", 0), ("last", 0), ("only",)):
                 return ("sa", name, link, ("only",))
             raise ShapeError(f"position {pos} of single-segment vector {name}@{link}")
@@ -281,6 +307,16 @@ def at(t, pos, env: Env):
             raise AnalysisError(f"vector {name}@{link} used where a scalar is needed")
         if pos[0] in ("rank",):
             raise AnalysisError("segment vector at a set rank")
+        if n is not None:
+            if pos[0] == "first":
+                kk = pos[1]
+            elif pos[0] == "last":
+                kk = n - 1 + pos[1]
+            else:
+                raise AnalysisError(f"generic position {pos} of a vector of concrete length")
+            if not 0 <= kk < n:
+                raise ShapeError(f"index {kk} outside vector {name}@{link} of length {n}")
+            return ("sa", name, link, ("first", kk))
         if pos[0] == "first" and pos[1] < 0 or pos[0] == "last" and pos[1] > 0:
             raise ShapeError(f"position {pos} outside vector {name}@{link}")
         return ("sa", name, link, pos)
@@ -315,6 +351,9 @@ def at(t, pos, env: Env):
             if n is not None:
                 return at(t[1], ("first", lo), env)
             raise AnalysisError("scalar use of a slice of unknown length")
+        n = seglen(s1, env)
+        if n is not None and pos[0] == "last":
+            return at(t[1], ("first", n - 1 + pos[1] + hi), env)
         if pos[0] in ("first", "i"):
             return at(t[1], (pos[0], pos[1] + lo), env)
         if pos[0] == "last":
@@ -355,12 +394,9 @@ def at(t, pos, env: Env):
         if s1[0] == "fam":
             return ("sumfam", s1[1], at(t[1], ("mem", s1[1]), env))
         if s1[0] == "tuple":
-            items = t[1][1] if t[1][0] == "vcat" else None
-            if items is None:
-                raise AnalysisError("sum of an opaque tuple")
-            acc = at(items[0], None, env)
-            for it in items[1:]:
-                acc = ("add", acc, at(it, None, env))
+            acc = at(t[1], ("first", 0), env)
+            for kk in range(1, s1[1]):
+                acc = ("add", acc, at(t[1], ("first", kk), env))
             return acc
         raise AnalysisError(f"sum over shape {s1} is not modelled")
     if k == "fam":
@@ -424,6 +460,8 @@ def _at_vcat(t, pos, env):
     for s in shapes:
         if s == SC:
             lens.append((1, 0))
+        elif s[0] == "tuple":
+            lens.append((s[1], 0))
         elif s[0] == "seg":
             lens.append((s[2], s[3]))
         else:
